@@ -27,6 +27,7 @@ from renormalizer.mps.lib import Environ, cvec2cmat
 from renormalizer.mps.mp import MatrixProduct
 from renormalizer.mps.matrix import asnumpy
 from renormalizer.utils.configs import OFS
+from renormalizer.utils import CompressConfig, CompressCriteria
 
 # ----------------------------------------------------------------------------- models
 def model_spin(n, qn, rng, enc="01", cplx=False, lr=False):
@@ -103,8 +104,52 @@ def model_qc(norb, rng):
     return Model(basis, terms)
 
 
+def model_spinboson(ns, nbas, pos, rng):
+    """ns spins (no conserved quantity) coupled to one nbas-level oscillator at the left or right end: exact ranks grow towards it"""
+    terms = []
+    for i in range(ns - 1):
+        for a in "xz":
+            terms.append(Op("sigma_%s sigma_%s" % (a, a), [i, i + 1], float(rng.uniform(0.5, 1.5))))
+    for i in range(ns):
+        terms.append(Op("sigma_z", i, float(rng.uniform(-1, 1))))
+        terms.append(Op("sigma_x", i, float(rng.uniform(-1, 1))))
+        terms.append(Op("sigma_z", i) * Op(r"b^\dagger+b", "v") * float(rng.uniform(0.3, 0.9)))
+    terms.append(Op(r"b^\dagger b", "v", 0.2))
+    spins = [BasisHalfSpin(i) for i in range(ns)]
+    osc = [BasisSHO("v", omega=0.2, nbas=nbas)]
+    return Model(osc + spins if pos == "left" else spins + osc, terms)
+
+
+def model_osc(n, nbas, rng):
+    """coupled truncated oscillators (non-negative spectrum up to the coupling): big local dimension, the two-site problem reaches the iterative solver"""
+    basis = [BasisSHO("v%d" % i, omega=float(rng.uniform(0.6, 1.4)), nbas=nbas) for i in range(n)]
+    terms = [Op(r"b^\dagger b", "v%d" % i, float(basis[i].omega)) for i in range(n)]
+    for i in range(n - 1):
+        terms.append(Op(r"b^\dagger+b", "v%d" % i) * Op(r"b^\dagger+b", "v%d" % (i + 1)) * float(rng.uniform(-0.3, 0.3)))
+    return Model(basis, terms)
+
+
+def model_nroots_corpus():
+    """the input of fix 9c06eb1 (broadcast ValueError in the convergence test when a sweep's best local problem has fewer than nroots states)"""
+    n = 6
+    rng = np.random.default_rng(0)
+    basis = [BasisHalfSpin(i, sigmaqn=[0, 1]) for i in range(n)]
+    terms = [Op("sigma_z", i, rng.normal()) for i in range(n)]
+    for i in range(n):
+        for j in range(i + 1, n):
+            t = rng.normal()
+            terms += [Op("sigma_+ sigma_-", [i, j], t), Op("sigma_- sigma_+", [i, j], t)]
+    return Model(basis, terms)
+
+
 def build_model(case, rng):
     k = case["kind"]
+    if k == "spinboson":
+        return model_spinboson(case["ns"], case["nbas"], case.get("pos", "right"), rng)
+    if k == "osc":
+        return model_osc(case["n"], case["nbas"], rng)
+    if k == "nroots_corpus":
+        return model_nroots_corpus()
     if k == "spin":
         return model_spin(case["n"], case.get("qn", True), rng, case.get("enc", "01"), bool(case.get("cplx")), bool(case.get("lr")))
     if k == "holstein":
@@ -386,6 +431,8 @@ def run_case(case):
         if omega is not None:
             omega = float(w0[0] + omega * (w0[-1] - w0[0]))
         out["omega"] = omega
+        if omega is not None:
+            out["exact_H_near_omega"] = float(w0[int(np.argmin((w0 - omega) ** 2))])
         inverse = float(case.get("inverse", 1.0))
         if omega is None:
             ref = np.sort(w0 * inverse)
@@ -419,7 +466,15 @@ def run_case(case):
             out["prep_flags"] = [int(mps.qnidx), bool(mps.to_right), bool(mps.check_left_canonical()), bool(mps.check_right_canonical())]
         if case.get("cplx"):
             mps = mps.to_complex()
-        mps.optimize_config.procedure = [[int(m), float(p)] for m, p in case["procedure"]]
+        proc = []
+        for m, p_ in case["procedure"]:
+            if isinstance(m, dict):
+                cc = CompressConfig(CompressCriteria.fixed, max_bonddim=int(max(m["max_dims"])))
+                cc.max_dims = np.array(m["max_dims"], dtype=int)
+                proc.append([cc, float(p_)])
+            else:
+                proc.append([int(m), float(p_)])
+        mps.optimize_config.procedure = proc
         mps.optimize_config.method = case["method"]
         mps.optimize_config.nroots = int(case.get("nroots", 1))
         mps.optimize_config.algo = case.get("algo", "davidson")
